@@ -60,13 +60,18 @@ CLAIMED = {
          "Tie: Alignment.check / SoftAlignment.check / constructors with check_validity=True on valid alignments and ~25 neighbours each, outcome "
          "enum compared exactly with the extracted model.",
          TB + "Python set/Counter semantics reached through the checks only."),
- "C04": ("4/C04", "algebraic-law theorems on the exact-rational formulas + differential comparison of d() and the compiled kernels with the formulas",
+ "C04": ("4/C04", "algebraic-law theorems on the exact-rational formulas; formulas re-proved equal to the d() / kernel bodies translated from dissimilarity.py on every run; differential comparison of d() and the compiled kernels with the formulas",
          "Theorems: symmetry, non-negativity, zero on identical units for every class; array form = unit form for the absolute one; Levenshtein "
          "symmetric, bounded, hence normaliser 1 and value independent of the other labels; ordinal value independent of the supplied order and at "
-         "most delta_empty; combined inherits the laws and uses one delta_empty. Tie: for objects of every class built from generated constructor "
+         "most delta_empty; combined inherits the laws and uses one delta_empty. Tie 1 (translator): the bodies of d() and of the kernel built by "
+         "compile_d_mat() for the positional, absolute, table and combined classes, _category_index and the row _build_arrays_continuum writes are "
+         "translated expression by expression (fail-closed AST translator, genprops/DissimGen.v) and the C04_src_* theorems - source body = model "
+         "formula, kernel on rows = d() on units, for all units - are re-proved against the translation on every run. Tie 2 (correspondence): for objects of every class built from generated constructor "
          "arguments (1..300 categories, label orders, components with another delta_empty) d(u1,u2) and the kernel value "
          "(UnitaryAlignment([(a,u1),(b,u2)]).compute_disorder) must equal the extracted model's exact formula within 2^-17.",
-         TB + "The model description is built from constructor arguments only; float32 rounding tolerance 2^-17."),
+         TB + "harness/gen_tables.py (expression translator; numpy float32 arithmetic is read as exact rational arithmetic). The model description is "
+         "built from constructor arguments only; float32 rounding tolerance 2^-17. Matrix construction of the Levenshtein / ordinal classes is tied by "
+         "the correspondence only."),
  "C09": ("4/C09", "invariance theorems (dissimilarities, pair sums, delta_empty scaling of candidates/optima/gamma) + metamorphic runs on large continua",
          "Theorems: positional dissimilarity invariant under shift and positive scaling, absolute under injective renaming, ordinal under relisting; "
          "sum over unordered annotator pairs invariant under permutation; delta_empty * k multiplies every cost and the cut by k, keeps the candidate "
